@@ -292,7 +292,7 @@ fn gen_code_case(rng: &mut Rng, prop: &str) -> CodeCase {
             5 => COp::Push0,
             6 | 7 => COp::Dup(rng.range(1, 16) as u8),
             _ => {
-                let len = *rng.pick(&[1usize, 1, 2, 8, 20, 31, 32, 32]);
+                let len = if rng.bool() { rng.range(1, 32) as usize } else { *rng.pick(&[1usize, 1, 2, 8, 20, 31, 32, 32]) };
                 let mut b = rng.bytes(len);
                 if rng.chance(1, 4) {
                     b[0] = 0;
